@@ -528,6 +528,24 @@ def enumerate_cases(tier):
 
 def strategy(tier):
     eighth = st.integers(0, 48).map(lambda n: n / 8)
+
+    def featured(d, kind, tau, feature, x):
+        extra = {"pre_busy": {"pre_busy": x}, "deferred": {"deferred": x}, "never": {"deferred": x, "never_awaited": True}, "never_task": {"deferred": x, "never_awaited": "task"}}[feature]
+        return {"d": d, "steps": 1, "outcome": kind, "e": 2, "tau": tau, "c": None, **extra}
+
+    # loop turns that take time before the function's first step; calls that are made first and awaited later / never
+    special = st.builds(
+        featured,
+        st.integers(1, 24).map(lambda n: n / 8),
+        st.sampled_from(["value", "exc", "base", "ignore", "value_exc", "exc_timeout"]),
+        st.integers(1, 24).map(lambda n: n / 8),
+        st.sampled_from(["pre_busy", "pre_busy", "deferred", "never", "never_task"]),
+        st.integers(1, 16).map(lambda n: n / 8),
+    )
+    return st.one_of(_general(eighth), _general(eighth), _general(eighth), _general(eighth), special)
+
+
+def _general(eighth):
     return st.builds(
         lambda d, steps, kind, e, tau, c, t0, bg, sc, sl, cb: {"d": d, "steps": steps, "outcome": kind, "e": e, "tau": tau, "c": c, "t0": t0, "bg": bg, "in_scope": sc, "second_loop": sl, "callable": cb, "swallowed_cancel": cb is None and sl and sc, "earlier": (0.25 if steps == 2 else 1.0) if (bg is None and not sl and steps != 1) else None},
         eighth,
